@@ -92,7 +92,18 @@ func (st *programState) runBalancesQuery() error {
 	// reset batch query
 	st.CurrentBalanceQuery = BalanceQuery{}
 
-	st.CachedBalances = balances
+	// merge the fetched balances into the cache: what is already known
+	// (and possibly updated by the statements run so far) is kept
+	for account, accountBalances := range balances {
+		cachedAccountBalances := defaultMapGet(st.CachedBalances, account, func() AccountBalance {
+			return AccountBalance{}
+		})
+		for asset, amount := range accountBalances {
+			if _, alreadyCached := cachedAccountBalances[asset]; !alreadyCached && amount != nil {
+				cachedAccountBalances[asset] = amount
+			}
+		}
+	}
 	verifEmit(st.ctx, "cache", balances, st.CachedBalances)
 	return nil
 }
